@@ -306,7 +306,7 @@ func (p *sparser) peek() stok {
 	return stok{k: "eof"}
 }
 func (p *sparser) isOp(t string) bool { x := p.peek(); return x.k == "op" && x.t == t }
-func (p *sparser) next() stok        { t := p.peek(); p.i++; return t }
+func (p *sparser) next() stok         { t := p.peek(); p.i++; return t }
 
 func (p *sparser) binary(ops []string, sub func() bool) bool {
 	if !sub() {
